@@ -205,6 +205,8 @@ func setTop(t *c17Term, call *ssa.Call) {
 func runC17(c *Ctx) {
 	p := c.P
 	s := p.Selectors()
+	s.checkSnapshotOrder(c, "snapshot-before-render")
+	checkExtendsWorkingDirBase(c, "extended-working-dir-base")
 
 	// ------------------------------------------------------------------ (1)
 	r1 := c.Rule("escape-expand-order", "in the function that reads a configuration file, the bytes given to the first yaml.Unmarshal are ReplaceAll(os.ExpandEnv(ReplaceAll(string(raw), \"$$\", S)), S, \"$\") with the same non-empty S; on the DisableEnvExpansion edge the project is unmarshalled again from the raw file bytes; the .env files are loaded before the expansion unless dotenv is disabled")
@@ -326,7 +328,7 @@ func runC17(c *Ctx) {
 		ef := envFns[0]
 		c.Touch(ef)
 		for _, ret := range returnsOf(ef) {
-			srcs := concatSources(ret.Results[0], 0)
+			srcs := concatSources(RetVals(ret)[0], 0)
 			idx := func(pred func(s string) bool) int {
 				for i, s := range srcs {
 					if pred(s) {
@@ -507,4 +509,63 @@ func runC17(c *Ctx) {
 		c.Check(okSkip, r4, "failed-command-skipped", FirstPos(p, ec), "a failing env command adds no entry", "a failing env command still adds an entry")
 	}
 	_ = types.Typ
+}
+
+// checkExtendsWorkingDirBase (C17; the same condition is part of C15.extends-order): the function that loads an
+// extended (parent) project resolves the parent's empty/relative working directories against filepath.Dir of the
+// parent's own path.
+func checkExtendsWorkingDirBase(c *Ctx, ruleID string) {
+	p := c.P
+	rule := c.Rule(ruleID, "in the function that inserts an extended project into the list of projects, the call that resolves the parent's working directories passes filepath.Dir(<the extends path>) as base directory")
+	fProjects := p.Field("loader", "LoaderOptions", "projects")
+	fExt := p.Field("types", "Project", "ExtendsProject")
+	fWd := p.Field("types", "ProcessConfig", "WorkingDir")
+	n := 0
+	for _, f := range p.FuncsOfPkg("loader") {
+		isExt := false
+		AllInstrs(f, func(in ssa.Instruction) {
+			call, ok := in.(*ssa.Call)
+			if !ok {
+				return
+			}
+			sc := call.Call.StaticCallee()
+			if sc == nil {
+				return
+			}
+			g := sc
+			if sc.Origin() != nil {
+				g = sc.Origin()
+			}
+			if pk := pkgOfFunc(g); pk != nil && pk.Path() == "slices" && g.Name() == "Insert" && PathOf(call.Call.Args[0]).LastField() == fProjects {
+				isExt = true
+			}
+		})
+		if !isExt {
+			continue
+		}
+		c.Touch(f)
+		AllInstrs(f, func(in ssa.Instruction) {
+			call, ok := in.(*ssa.Call)
+			if !ok {
+				return
+			}
+			sc := call.Call.StaticCallee()
+			if sc == nil || !p.InRepo(sc) || len(DirectSites(sc, StoreTo("WorkingDir", fWd))) == 0 {
+				return
+			}
+			n++
+			okDir := false
+			for _, a := range call.Call.Args {
+				if dc, isC := stripConv(a).(*ssa.Call); isC {
+					if o := CalleeObj(&dc.Call); o != nil && o.Pkg() != nil && o.Pkg().Path() == "path/filepath" && o.Name() == "Dir" && len(dc.Call.Args) == 1 && PathOf(dc.Call.Args[0]).LastField() == fExt {
+						okDir = true
+					}
+				}
+			}
+			c.Check(okDir, rule, p.FuncKey(f), p.InstrPos(call), "resolved against the directory of the extended file", "the working directories of an extended project's processes are resolved against another directory than that of the extended file: with base and extending file in different directories the base's commands run in the wrong directory")
+		})
+	}
+	if n == 0 {
+		c.Bad(rule, "none", "", "no working-directory resolution for extended projects found")
+	}
 }
